@@ -36,20 +36,25 @@ REQUIRED_CLASSES = ["fold-noncommutative", "two-levels", "concurrent-recorders",
 
 
 def fold(records):
-    """left fold of (rid, merge) -> tuple of ids, or None when unspecified"""
-    cur = None
+    """left fold of (rid, merge) -> set of acceptable stored values (tuples of ids; None = nothing stored).
+    After a merge function raised, the statement fixes only that recording does not raise; a sane store either keeps
+    the value it had (the failing record is dropped) or takes the new record as it is - both are accepted, nothing else
+    (in particular earlier records must not silently disappear)."""
+    cands = {None}
     for rid, merge in records:
-        if cur is None:
-            cur = (rid,)
-        elif merge in ("default", "replace"):
-            cur = (rid,)
-        elif merge == "concat":
-            cur = (*cur, rid)
-        elif merge == "sum":
-            cur = (sum(cur) + rid,)
-        else:
-            return "unspecified"
-    return cur
+        nxt = set()
+        for cur in cands:
+            if cur is None or merge in ("default", "replace"):
+                nxt.add((rid,))
+            elif merge == "concat":
+                nxt.add((*cur, rid))
+            elif merge == "sum":
+                nxt.add((sum(cur) + rid,))
+            else:  # raising
+                nxt.add(cur)
+                nxt.add((rid,))
+        cands = nxt
+    return cands
 
 
 def run_case(case) -> Outcome:
@@ -120,24 +125,23 @@ def run_case(case) -> Outcome:
             got = comp["read"].get(tname)
             if len(recs) >= 2 and any(m in ("concat", "sum") for _, m in recs[1:]):
                 classes.add("fold-noncommutative")
-            if exp == "unspecified":
+            if len(exp) > 1:
                 out.unspecified.append("value-after-raising-merge")
-                continue
-            if got != exp:
-                foreign = got is not None and any(i not in [r for r, _ in recs] for i in got) and all(m != "sum" for _, m in recs)
+            if got not in exp:
+                ids = [r for r, _ in recs]
+                foreign = got is not None and any(i not in ids for i in got) and all(m != "sum" for _, m in recs)
+                lost = got is None and bool(recs)
                 out.violate(
                     "read",
-                    f"C10.read/{'foreign-record-in-scope' if foreign else 'wrong-fold'}",
-                    f"scope {s} type {tname}: read {got}, expected {exp} from own records {recs}",
+                    f"C10.read/{'foreign-record-in-scope' if foreign else ('records-lost' if lost else 'wrong-fold')}{'/falsy-metric' if tname == 'MF' else ''}",
+                    f"scope {s} type {tname}: read {got}, expected one of {sorted(exp, key=str)} from own records {recs}",
                 )
         # merged view: own value, then nested scopes in creation order, depth first
         def merged(node, tname):
-            vals = []
             o = fold(own.get(node, {}).get(tname, []))
-            if o == "unspecified":
+            if len(o) > 1:
                 return "unspecified"
-            if o is not None:
-                vals.extend(o)
+            vals = list(next(iter(o)) or ())
             for c in creation:
                 if parent.get(c) == node:
                     m = merged(c, tname)
@@ -179,7 +183,7 @@ def _lineage_prefix(q, p):
 def strategy(tier):
     rec = st.builds(
         lambda t, m: {"k": "record", "type": t, "merge": m},
-        st.sampled_from(["MA", "MA", "MB", "MC"]),
+        st.sampled_from(["MA", "MA", "MB", "MC", "MF"]),
         st.sampled_from(["default", "replace", "concat", "concat", "sum", "raising"]),
     )
     sleep = st.builds(lambda t: {"k": "sleep", "t": t}, st.sampled_from([0.25, 0.5, 1]))
